@@ -791,6 +791,30 @@ func ruleConstCacheFloat(c *Ctx, rule string) {
 		f := cl.Call.StaticCallee()
 		return f != nil && f.Pkg != nil && f.Pkg.Pkg.Path() == "math" && (f.Name() == "Signbit" || f.Name() == "Float64bits" || f.Name() == "Copysign")
 	}
+	// the sign test may sit in a predicate helper (`isNegativeZeroFloat(obj)`): a
+	// call of a repository function returning bool whose body examines the sign
+	direct := signAware
+	helperSign := func(ins ssa.Instruction) bool {
+		cl, ok := ins.(*ssa.Call)
+		if !ok {
+			return false
+		}
+		f := cl.Call.StaticCallee()
+		if f == nil || len(f.Blocks) == 0 || funcPkgPath(f) != modPath || f.Signature.Results().Len() != 1 {
+			return false
+		}
+		if b, ok := f.Signature.Results().At(0).Type().Underlying().(*types.Basic); !ok || b.Kind() != types.Bool {
+			return false
+		}
+		found := false
+		eachInstr(f, func(x ssa.Instruction) {
+			if direct(x) {
+				found = true
+			}
+		})
+		return found
+	}
+	signAware = func(ins ssa.Instruction) bool { return direct(ins) || helperSign(ins) }
 	n := 0
 	for _, fn := range l.RepoFuncs(func(pp string) bool { return pp == modPath }) {
 		eachInstr(fn, func(ins ssa.Instruction) {
@@ -905,6 +929,9 @@ func ruleConstCacheFloat(c *Ctx, rule string) {
 							if cl, isCall := g.If.Cond.(*ssa.Call); isCall && g.Truth {
 								if f := cl.Call.StaticCallee(); f != nil && f.Pkg != nil && f.Pkg.Pkg.Path() == "math" && f.Name() == "Signbit" {
 									ok2 = false
+								}
+								if helperSign(cl) {
+									ok2 = false // the predicate said "negative zero" on this path
 								}
 							}
 						}
